@@ -6,5 +6,6 @@ INVARIANT Only21
 INVARIANT CmpAgrees
 INVARIANT LevelsNested
 INVARIANT Monotone
+INVARIANT FineConsistent
 
 CHECK_DEADLOCK FALSE
